@@ -274,9 +274,40 @@ move=> ssz n2 r0ok Hinv; apply: source_family_covariances_sum => //.
 Qed.
 End SrcCov.
 
+Section CovLin.
+Variable expm : seq (seq R) -> seq (seq R).
+Hypothesis expm_sound : forall n A, wf n n A -> wf n n (expm A) /\ mx_of n n (expm A) = mexp (mx_of n n A).
+Variables (n : nat) (Ss : seq (Q * seq (seq R))) (Slast : seq (seq R)) (alpha : seq R) (lam : R) (t : Q).
+Hypothesis lam0 : lam <> 0.
+Hypothesis H1 : List.Forall (fun x : Q * seq (seq R) => wf n n x.2) Ss.
+Hypothesis H2 : wf n n Slast.
+Hypothesis H5 : epochs_wf (seq (seq R)) 0%QQ Ss.
+Hypothesis t0 : (0 <= t)%QQ.
+Let C := cov_t expm Ss Slast alpha lam t.
+
+(* the covariance computed by the model of accumulate (center = permute = True) is symmetric and bilinear in the reward vectors *)
+Theorem cov_t_sym a b : C a b = C b a.
+Proof. by rewrite /C !cov_tE S2_sym mulrC. Qed.
+
+Theorem cov_t_lin_l a1 a2 b (c1 c2 : R) : size a1 = n -> size a2 = n -> size b = n ->
+  C (vadd OpsR (vscale OpsR c1 a1) (vscale OpsR c2 a2)) b = c1 * C a1 b + c2 * C a2 b.
+Proof.
+move=> s1 s2 sb; rewrite /C !cov_tE.
+rewrite (@S2_lin_l expm expm_sound n Ss Slast alpha lam t lam0 H1 H2 H5 t0) //.
+rewrite (@M1_lin expm expm_sound n Ss Slast alpha lam t lam0 H1 H2 H5 t0) //.
+rewrite /GRing.add /GRing.mul /GRing.opp /=; ring.
+Qed.
+
+Theorem cov_t_lin_r a b1 b2 (c1 c2 : R) : size a = n -> size b1 = n -> size b2 = n ->
+  C a (vadd OpsR (vscale OpsR c1 b1) (vscale OpsR c2 b2)) = c1 * C a b1 + c2 * C a b2.
+Proof. by move=> sa s1 s2; rewrite cov_t_sym cov_t_lin_l // ![C _ a]cov_t_sym. Qed.
+End CovLin.
+
 Print Assumptions raw_slot_linear.
 Print Assumptions cov_entries_sum_to_variance.
 Print Assumptions deme_vectors_sum.
 Print Assumptions source_deme_covariances_sum_to_variance.
 Print Assumptions source_family_covariances_sum.
 Print Assumptions source_sfs_covariances_sum_to_branch_length_variance.
+Print Assumptions cov_t_lin_l.
+Print Assumptions cov_t_sym.
